@@ -65,6 +65,7 @@ type recWriter struct {
 	chunks    []string
 	calls     int
 	failAt    int // -1 never
+	report    int // 0: a failing Write returns (0, err); 1: (len(p), err); 2: (len(p)/2, err)
 	transient bool
 	str       bool
 }
@@ -75,6 +76,13 @@ func (w *recWriter) Write(p []byte) (int, error) {
 	k := w.calls
 	w.calls++
 	if w.failAt >= 0 && ((w.transient && k == w.failAt) || (!w.transient && k >= w.failAt)) {
+		// what a failing Write reports besides the error: nothing written, everything, or half (io.Writer allows all three)
+		switch w.report {
+		case 1:
+			return len(p), errInjected
+		case 2:
+			return len(p) / 2, errInjected
+		}
 		return 0, errInjected
 	}
 	w.chunks = append(w.chunks, string(p))
